@@ -73,6 +73,10 @@ structure PointAns where
   stop : Cell
   t : Nat
   cell : Cell
+  -- (two traversals of one link may carry different lengths / speeds - an estimate and a
+  --  re-measured piece - and split at different points: the answer is keyed by them too)
+  dist : Option Rat := none
+  speed : Option Rat := none
   deriving FromJson
 
 structure GcAns where
@@ -96,9 +100,13 @@ def missLink : Link := ⟨999999999, 999999999, 999999998, 0, 1⟩
 
 def Oracle.geo (o : Oracle) : Geo where
   pointAlong l t :=
-    match o.pointAlong.find? (fun a => a.link == l.id && a.start == l.start && a.stop == l.stop && a.t == t) with
+    let geom (a : PointAns) : Bool := a.link == l.id && a.start == l.start && a.stop == l.stop && a.t == t
+    match o.pointAlong.find? (fun a => geom a && a.dist == some l.dist && a.speed == some l.speed) with
     | some a => a.cell
-    | none => 999999999
+    | none =>
+      match o.pointAlong.find? geom with
+      | some a => a.cell
+      | none => 999999999
   gcDist a b :=
     match o.gc.find? (fun g => g.a == a && g.b == b) with
     | some g => g.d
